@@ -343,6 +343,27 @@ func cmdC11(tier string, seed int64, out, statsOut, replay string) {
 			runC11Case(w, fmt.Sprintf("perm-%d-%d", ci, pi), histDesc{YAML: doc, Files: gen.files, Ops: p}, st)
 		}
 	}
+	// configurations one format cannot be built from (an entry addressed to it whose source is missing, or two of its
+	// entries at one place): validation and that format's packaging fail, and leave everything as it was for the others
+	for bi, broken := range []string{"rpm", "deb", "archlinux"} {
+		gen := histConfig(g, 50+bi)
+		if bi%2 == 0 {
+			gen.cfg.Contents = append(gen.cfg.Contents, &files.Content{Source: "src/not-there-for-" + broken, Destination: "/opt/broken/missing", Packager: broken})
+		} else {
+			gen.cfg.Contents = append(gen.cfg.Contents, &files.Content{Source: "src/f1", Destination: "/opt/broken/twice", Packager: broken},
+				&files.Content{Source: "src/d/*", Destination: "/opt/broken/glob/"},
+				&files.Content{Source: "src/f2", Destination: "/opt/broken/twice", Packager: broken})
+		}
+		doc := marshalConfig(&gen.cfg)
+		k := 0
+		for _, first := range []string{"validate", "pkg:" + broken, "name:" + broken} {
+			for _, f := range allFormats {
+				k++
+				runC11Case(w, fmt.Sprintf("broken-%s-%d", broken, k), histDesc{YAML: doc, Files: gen.files, Ops: []string{first, "pkg:" + f, "validate", "pkg:" + f}}, st)
+			}
+		}
+		runC11Case(w, fmt.Sprintf("broken-%s-all", broken), histDesc{YAML: doc, Files: gen.files, Ops: append(append([]string{"validate"}, pkgs...), "validate")}, st)
+	}
 	// random longer histories over fresh configurations
 	n := 25
 	if tier != "quick" {
